@@ -25,6 +25,7 @@ type Job struct {
 	Fatal    map[string]string `json:"fatal,omitempty"`
 	Mode     string            `json:"mode,omitempty"` // "" normal, "c13sweep", "c16diff", "lrudrive"
 	WantPlan bool              `json:"want_plan,omitempty"`
+	Race     bool              `json:"race,omitempty"` // run on a worker built with the race detector (tag verifrace)
 }
 
 // Msg is one line from worker to coordinator.
@@ -61,8 +62,11 @@ func workerMain() {
 	// an allocation sized by a garbage length field must die at once, inside
 	// the step that made it (the coordinator classifies the death from the
 	// runtime's "out of memory" message and the journaled step)
-	lim := syscall.Rlimit{Cur: 3 << 30, Max: 3 << 30}
-	syscall.Setrlimit(syscall.RLIMIT_AS, &lim)
+	if !core.RaceMode {
+		// (the race detector reserves terabytes of address space)
+		lim := syscall.Rlimit{Cur: 3 << 30, Max: 3 << 30}
+		syscall.Setrlimit(syscall.RLIMIT_AS, &lim)
+	}
 	debug.SetGCPercent(200)
 	debug.SetMemoryLimit(768 << 20)
 	scratch := os.Getenv("SIM_SCRATCH")
@@ -129,6 +133,9 @@ func workerMain() {
 			},
 		}
 		res, plan := runJob(&job, env)
+		if core.RaceMode {
+			collectRaces(&job, res)
+		}
 		msg := &Msg{ID: job.ID, Result: res}
 		if job.WantPlan {
 			msg.Plan = plan
@@ -149,7 +156,11 @@ func runJob(job *Job, env *core.Env) (*core.RunResult, *core.Plan) {
 	}()
 	plan := job.Plan
 	if plan == nil {
-		pf := core.ProfileFor(job.Prop, job.Tier, job.Seed)
+		prof := job.Prop
+		if job.Race && prof == "C13" {
+			prof = "C13R"
+		}
+		pf := core.ProfileFor(prof, job.Tier, job.Seed)
 		plan = core.Generate(pf, job.Seed)
 	}
 	switch job.Mode {
